@@ -204,6 +204,12 @@ theorem c03_health_check_shape :
     Gen.C03.healthTrueCalls = 1 ∧ Gen.C03.healthTrueGuard = "statusCode == http.StatusOK" ∧
     Gen.C03.healthTrueElseOf = "err != nil" ∧ Gen.C03.healthTrueInElse = true ∧ Gen.C03.healthReadsStatusCode = true := by decide
 
+/-- **no probe starts after the disable** (finding C03-probe-starts-after-disable, fixed by b321377): the model's worker fires
+    only while `probing`, and `probing` is false from the Sync that disables the endpoint on (`c03_probing_iff_enabled`,
+    `c03_probe_only_enabled`).  The code's worker used to choose at random between a queued tick and its cancellation; it now
+    re-checks its context after taking a tick — regenerated fact, and judged by the harness's disable stream without grace. -/
+theorem c03_worker_rechecks_ctx : Gen.C03.healthWorkerRechecksCtx = true := by decide
+
 private theorem run_append (s : State) (xs ys : List Op) :
     run s (xs ++ ys) = ((run (run s xs).1 ys).1, (run s xs).2 ++ (run (run s xs).1 ys).2) := by
   induction xs generalizing s with
